@@ -11,7 +11,7 @@ from concurrent.futures import ThreadPoolExecutor
 from harness import scratch, tlc, evidence, bases
 
 PID = "C18"
-LEAVES = ["x", "a0", "a1", "2", "0.5", "-1", "1.5"]
+LEAVES = ["x", "a0", "a1", "2", "0.5", "-1", "1.5", "1.000004"]     # 1.000004: a constant close to, but not, one
 SIBS = ["x", "a0", "a2", "3", "-1"]
 TIERS = {
     "quick": {"bases": ["keep_duplicates", "base10_maths", "osc_maths"], "depth2": 700, "sim": 150, "workers": 6},
